@@ -85,9 +85,20 @@ package tools
 //@   modifies nothing
 //@   loop 0 invariant ref(list) == nil || fresh(list)
 
+// Per node, the scan of its branches counts exactly: Branches grows by one per
+// branch, Guards by one per guarded branch (gb(j), gg(j) = Branches, Guards
+// before branch j is examined), every branch target is recorded as targeted and every guard
+// source's interpreter is recorded.
+//@ spec hasGuard(b) = b.Guard != nil || b.GuardSource != nil
 //@ func Analyze returns a, err
 //@   safety C20
 //@   requires s != nil && wfSpec(s)
 //@   ensures[C20] count: err == nil && a != nil && a.NodeCount == len(s.Nodes)
 //@   loop 0 invariant a.NodeCount == len(s.Nodes)
 //@   loop 1 invariant a.NodeCount == len(s.Nodes)
+//@   loop 1 ghostfn gg(rangeindex + 1) = a.Guards
+//@   loop 1 ghostfn gb(rangeindex + 1) = a.Branches
+//@   loop 1 invariant[C20] branchstep: rangeindex >= 0 ==> a.Branches == gb(rangeindex) + 1
+//@   loop 1 invariant[C20] guardstep: rangeindex >= 0 ==> a.Guards == gg(rangeindex) + (hasGuard(n.Branches.Branches[rangeindex]) ? 1 : 0)
+//@   loop 1 invariant[C20] targets: forall j int :: 0 <= j && j <= rangeindex ==> (n.Branches.Branches[j].Target in targeted) && targeted[n.Branches.Branches[j].Target]
+//@   loop 1 invariant[C20] guardinterp: forall j int :: 0 <= j && j <= rangeindex && n.Branches.Branches[j].GuardSource != nil ==> (n.Branches.Branches[j].GuardSource.Interpreter in interpreters)
